@@ -6,18 +6,16 @@ import Nuts.Spec.RList
 namespace NutsProofs.C05
 open Nuts Nuts.Model Nuts.Spec
 
-/-- Guard of finding D-LRANGE. -/
-def LRangeGuard (n : Nat) (s e : Int) : Prop := ¬ (s < 0 ∧ e = 0) ∧ -(n : Int) ≤ s
-
 /-- The regenerated `LRange` kernel, for every machine integer: it either returns an error with an
-empty Redis range, or slices exactly the Redis range, in bounds. -/
+empty Redis range, or slices exactly the Redis range, in bounds. (Before the fix of finding
+D-LRANGE this needed the guard `¬(start < 0 ∧ end = 0) ∧ -size ≤ start`.) -/
 theorem lrange_kernel_ok (n : Nat) (s e : Int) (hn : (n : Int) < 4611686018427387904)
-    (hs : inRange64 s) (he : inRange64 e) (g : LRangeGuard n s e) (o : KOut)
+    (hs : inRange64 s) (he : inRange64 e) (o : KOut)
     (ho : NutsGen.K.list_LRange.run s e n false = o) :
     (o.events = [] ∧ RList.startIdx n s > RList.stopIdx n e) ∨
     ∃ lo hi, o.events = [.slice 0 (some lo) (some hi)] ∧ 0 ≤ lo ∧ lo < hi ∧ hi ≤ n ∧
       lo = RList.startIdx n s ∧ hi = RList.stopIdx n e + 1 := by
-  unfold LRangeGuard inRange64 at *
+  unfold inRange64 at *
   unfold RList.startIdx RList.stopIdx RList.norm
   unfold NutsGen.K.list_LRange.run wrap64 at ho
   simp only [Bool.false_eq_true, ↓reduceIte] at ho
@@ -28,13 +26,13 @@ theorem lrange_kernel_ok (n : Nat) (s e : Int) (hn : (n : Int) < 461168601842738
     | (right; refine ⟨_, _, rfl, by omega, by omega, by omega, ?_, ?_⟩ <;> repeat' split <;> omega)
     | omega
 
-/-- C05 / LRange: for every list shorter than 2^62 and every pair of machine integers inside the guard,
-`LRange` returns the Redis range, or an error when that range is empty; it never panics. -/
+/-- C05 / LRange: for every list shorter than 2^62 and every pair of machine integers, `LRange`
+returns the Redis range, or an error when that range is empty; it never panics. -/
 theorem lrange_spec (l : List Bytes) (s e : Int) (hn : (l.length : Int) < 4611686018427387904)
-    (hs : inRange64 s) (he : inRange64 e) (g : LRangeGuard l.length s e) :
+    (hs : inRange64 s) (he : inRange64 e) :
     RList.Acceptable (RList.lrange l s e) (RList.lrange l s e).isEmpty (ListDS.lrangeL l false s e) := by
   unfold ListDS.lrangeL
-  rcases lrange_kernel_ok l.length s e hn hs he g _ rfl with ⟨h1, h2⟩ | ⟨lo, hi, h1, h2, h3, h4, h5, h6⟩
+  rcases lrange_kernel_ok l.length s e hn hs he _ rfl with ⟨h1, h2⟩ | ⟨lo, hi, h1, h2, h3, h4, h5, h6⟩
   · simp only [h1, RList.Acceptable, RList.lrange, if_pos h2, List.isEmpty_nil]
   · have h3' : lo ≤ hi := by omega
     simp only [h1, ListDS.sliceOf, h2, h3', h4, and_self, ↓reduceIte, RList.Acceptable, RList.lrange]
@@ -43,14 +41,14 @@ theorem lrange_spec (l : List Bytes) (s e : Int) (hn : (l.length : Int) < 461168
     congr 2
     omega
 
-/-- Non-vacuity of `lrange_spec`: a concrete list and indexes inside the guard. -/
-example : LRangeGuard 3 (-2) (-1) ∧ inRange64 (-2) ∧ inRange64 (-1) := by
-  unfold LRangeGuard inRange64; omega
+/-- Non-vacuity and regression of the former witnesses of D-LRANGE: the two inputs that used to panic. -/
+theorem lrange_neg_zero_fixed : ListDS.lrangeL [[1]] false (-1) 0 = .ok [[1]] := by decide
 
-/-- Witness of finding D-LRANGE (1): negative start with end 0 panics — outside the guard. -/
-theorem C05_witness_lrange_neg_zero : ListDS.lrangeL [[1]] false (-1) 0 = .panic := by decide
+theorem lrange_start_below_fixed : ListDS.lrangeL [[1], [2]] false (-5) 1 = .ok [[1], [2]] := by decide
 
-/-- Witness of finding D-LRANGE (2): start below `-size` panics. -/
-theorem C05_witness_lrange_start_below : ListDS.lrangeL [[1], [2]] false (-5) 1 = .panic := by decide
+/-- A missing key is an error, never a panic. -/
+theorem lrange_missing (s e : Int) : ListDS.lrangeL [] true s e = .err := by
+  unfold ListDS.lrangeL NutsGen.K.list_LRange.run
+  simp
 
 end NutsProofs.C05
